@@ -113,7 +113,7 @@ package pfcp
 //@   reveal sessOK
 //@   reveal nodeInv allSessOK dpLive lnodeWF
 //@   uses ok frameok for node hiding sessOK
-//@   serves C01 C05 C07
+//@   serves C01 C05 C07 C11 C12
 //@   at call CreateFAR:
 //@     assert [seid]     arg0 == s.LocalID && arg1 == req
 //@     assert [recorded] val(req.FARID()) in s.FARIDs
@@ -125,7 +125,7 @@ package pfcp
 //@   reveal sessOK
 //@   reveal nodeInv allSessOK dpLive lnodeWF
 //@   uses ok frameok for node hiding sessOK
-//@   serves C01 C05 C07
+//@   serves C01 C05 C07 C11 C12
 //@   at call UpdateFAR:
 //@     assert [seid] arg0 == s.LocalID && arg1 == req
 
@@ -143,7 +143,7 @@ package pfcp
 //@   reveal sessOK
 //@   reveal nodeInv allSessOK dpLive lnodeWF
 //@   uses ok frameok for node hiding sessOK
-//@   serves C01 C05 C07
+//@   serves C01 C05 C07 C11 C12
 //@   at call RemoveFAR:
 //@     assert [seid] arg0 == s.LocalID && arg1 == req
 
@@ -161,7 +161,7 @@ package pfcp
 //@   reveal sessOK
 //@   reveal nodeInv allSessOK dpLive lnodeWF
 //@   uses ok frameok for node hiding sessOK
-//@   serves C01 C05 C07
+//@   serves C01 C05 C07 C11 C12
 //@   at call CreateQER:
 //@     assert [seid]     arg0 == s.LocalID && arg1 == req
 //@     assert [recorded] val(req.QERID()) in s.QERIDs
@@ -173,7 +173,7 @@ package pfcp
 //@   reveal sessOK
 //@   reveal nodeInv allSessOK dpLive lnodeWF
 //@   uses ok frameok for node hiding sessOK
-//@   serves C01 C05 C07
+//@   serves C01 C05 C07 C11 C12
 //@   at call UpdateQER:
 //@     assert [seid] arg0 == s.LocalID && arg1 == req
 
@@ -191,7 +191,7 @@ package pfcp
 //@   reveal sessOK
 //@   reveal nodeInv allSessOK dpLive lnodeWF
 //@   uses ok frameok for node hiding sessOK
-//@   serves C01 C05 C07
+//@   serves C01 C05 C07 C11 C12
 //@   at call RemoveQER:
 //@     assert [seid] arg0 == s.LocalID && arg1 == req
 
@@ -209,7 +209,7 @@ package pfcp
 //@   reveal sessOK
 //@   reveal nodeInv allSessOK dpLive lnodeWF
 //@   uses ok frameok for node hiding sessOK
-//@   serves C01 C05 C07
+//@   serves C01 C05 C07 C11 C12
 //@   at call CreateBAR:
 //@     assert [seid]     arg0 == s.LocalID && arg1 == req
 //@     assert [recorded] val(req.BARID()) in s.BARIDs
@@ -221,7 +221,7 @@ package pfcp
 //@   reveal sessOK
 //@   reveal nodeInv allSessOK dpLive lnodeWF
 //@   uses ok frameok for node hiding sessOK
-//@   serves C01 C05 C07
+//@   serves C01 C05 C07 C11 C12
 //@   at call UpdateBAR:
 //@     assert [seid] arg0 == s.LocalID && arg1 == req
 
@@ -239,7 +239,7 @@ package pfcp
 //@   reveal sessOK
 //@   reveal nodeInv allSessOK dpLive lnodeWF
 //@   uses ok frameok for node hiding sessOK
-//@   serves C01 C05 C07
+//@   serves C01 C05 C07 C11 C12
 //@   at call RemoveBAR:
 //@     assert [seid] arg0 == s.LocalID && arg1 == req
 
@@ -268,7 +268,7 @@ package pfcp
 //@   reveal sessOK
 //@   reveal nodeInv allSessOK dpLive lnodeWF
 //@   uses ok frameok for node hiding sessOK
-//@   serves C01 C05 C07 C10 C11
+//@   serves C01 C05 C07 C10 C11 C12
 //@   loop range(req.ChildIEs):
 //@     modifies nothing
 //@     invariant [minfo] mInfo != nil
@@ -286,7 +286,7 @@ package pfcp
 //@   reveal sessOK
 //@   reveal nodeInv allSessOK dpLive lnodeWF
 //@   uses ok frameok for node hiding sessOK
-//@   serves C01 C05 C07
+//@   serves C01 C05 C07 C11 C12
 //@   loop range(req.ChildIEs):
 //@     modifies s.URRIDs[_].DURAT, s.URRIDs[_].VOLUM, s.URRIDs[_].EVENT, s.URRIDs[_].MBQE, s.URRIDs[_].INAM, s.URRIDs[_].RADI, s.URRIDs[_].ISTM, s.URRIDs[_].MNOP
 //@     invariant true
@@ -309,7 +309,7 @@ package pfcp
 //@   reveal sessOK
 //@   reveal nodeInv allSessOK dpLive lnodeWF
 //@   uses ok frameok for node hiding sessOK
-//@   serves C01 C05 C07 C12
+//@   serves C01 C05 C07 C12 C11
 //@   loop range(usars):
 //@     modifies usars[_]
 //@     invariant [flagged] forall j int :: 0 <= j && j < idx ==> usars[j].USARTrigger.Flags & report.USAR_TRIG_TERMR != 0
@@ -328,7 +328,7 @@ package pfcp
 //@   reveal sessOK
 //@   reveal nodeInv allSessOK dpLive lnodeWF
 //@   uses ok frameok for node hiding sessOK
-//@   serves C01 C05 C07 C12
+//@   serves C01 C05 C07 C12 C11
 //@   loop range(usars):
 //@     modifies usars[_]
 //@     invariant [flagged] forall j int :: 0 <= j && j < idx ==> usars[j].USARTrigger.Flags & report.USAR_TRIG_IMMER != 0
@@ -350,7 +350,7 @@ package pfcp
 //@   reveal sessOK
 //@   reveal nodeInv allSessOK dpLive lnodeWF
 //@   uses ok frameok for node hiding sessOK
-//@   serves C01 C05 C07 C12
+//@   serves C01 C05 C07 C12 C11
 //@   loop range(usars):
 //@     modifies usars[_]
 //@     invariant [flagged] forall j int :: 0 <= j && j < idx ==> usars[j].USARTrigger.Flags & report.USAR_TRIG_TERMR != 0
@@ -366,7 +366,7 @@ package pfcp
 //@   ensures [known]   urrid in s.URRIDs ==> seq == old(s.URRIDs[urrid].SEQN) && s.URRIDs[urrid].SEQN == seq + 1
 //@   ensures [unknown] !(urrid in s.URRIDs) ==> seq == 0
 //@   modifies s.URRIDs[urrid].SEQN
-//@   serves C11 C05 C07
+//@   serves C11 C05 C07 C12
 
 // A-PDRID: the PDR id the session layer computes from a Create/Update PDR IE (last decodable PDR-ID child) is the
 // id under which the driver installs the rule (pdrIdOf, see internal/forwarder contracts).
@@ -383,7 +383,7 @@ package pfcp
 //@   reveal sessOK
 //@   reveal nodeInv allSessOK dpLive lnodeWF
 //@   uses ok frameok for node hiding sessOK
-//@   serves C01 C05 C07
+//@   serves C01 C05 C07 C11 C12
 //@   loop range(ies):
 //@     modifies s.URRIDs[_].refPdrNum, urrids[_]
 //@     invariant true
@@ -405,7 +405,7 @@ package pfcp
 //@   reveal sessOK
 //@   reveal nodeInv allSessOK dpLive lnodeWF
 //@   uses ok frameok for node hiding sessOK
-//@   serves C01 C05 C07 C12
+//@   serves C01 C05 C07 C12 C11
 //@   loop range(ies):
 //@     modifies newUrrids[_]
 //@     invariant true
@@ -438,7 +438,7 @@ package pfcp
 //@   reveal sessOK
 //@   reveal nodeInv allSessOK dpLive lnodeWF
 //@   uses ok frameok for node hiding sessOK
-//@   serves C01 C05 C07 C12
+//@   serves C01 C05 C07 C12 C11
 //@   loop range(pdrInfo.RelatedURRIDs):
 //@     modifies s.URRIDs[_].refPdrNum
 //@     invariant [termr] forall j int :: 0 <= j && j < len(usars) ==> usars[j].USARTrigger.Flags & report.USAR_TRIG_TERMR != 0
@@ -459,7 +459,7 @@ package pfcp
 //@   ensures [frameok]      forall t *Sess :: old(allocated(t)) && old(sessOK(t)) && t != s && t.LocalID != s.LocalID ==> sessOK(t)
 //@   modifies s.FARIDs[_], s.QERIDs[_], s.BARIDs[_], s.PDRIDs[_], s.URRIDs[_].removed, s.URRIDs[_].refPdrNum, DP, chans(s.q)
 //@   reveal sessOK
-//@   serves C01 C05 C07 C12 C13
+//@   serves C01 C05 C07 C12 C13 C11
 //@   loop range(s.FARIDs):
 //@     modifies s.FARIDs[_], DP
 //@     invariant [inv]   sessOK(s)
@@ -517,7 +517,7 @@ package pfcp
 //@   reveal sessOK
 //@   reveal nodeInv allSessOK dpLive lnodeWF
 //@   uses ok frameok for node hiding sessOK
-//@   serves C13 C05 C07
+//@   serves C13 C05 C07 C11 C12
 
 //@ func (s *Sess) Len(pdrid uint16) (n int)
 //@   requires sessOK(s)
@@ -527,7 +527,7 @@ package pfcp
 //@   reveal sessOK
 //@   reveal nodeInv allSessOK dpLive lnodeWF
 //@   uses ok frameok for node hiding sessOK
-//@   serves C13 C07
+//@   serves C13 C07 C11 C12
 
 //@ func (s *Sess) Pop(pdrid uint16) (pkt []byte, ok bool)
 //@   requires sessOK(s)
@@ -544,7 +544,7 @@ package pfcp
 //@   reveal sessOK
 //@   reveal nodeInv allSessOK dpLive lnodeWF
 //@   uses ok frameok for node hiding sessOK
-//@   serves C13 C05 C07
+//@   serves C13 C05 C07 C11 C12
 
 // ---------------------------------------------------------------------------------------------
 // Nodes: sessions per control-plane node, session release
